@@ -579,3 +579,107 @@ Proof.
         { now apply map_chan_expand. }
       * cbn [andb]. now apply map_chan_expand.
 Qed.
+
+(* ------------------------------------------------------------------ which subset is loaded (preselect) *)
+Local Close Scope Q_scope.
+Lemma factor_pointwise : forall prods prods' t c t' c' cp,
+  Forall2 (fun p p' => forall i, gp t c i p = gp t' c' i p') prods prods' ->
+  factor prods t c cp = factor prods' t' c' cp.
+Proof.
+  intros prods prods' t c t' c' cp H. rewrite !factor_product.
+  induction H as [| p p' l l' Hp Hl IH]; [reflexivity |].
+  cbn [map]. rewrite !Cprod_cons, IH, !Hp. reflexivity.
+Qed.
+
+Lemma map2_map_r : forall {A B D} (f : A -> B -> D) (h : A -> B) l, map2 f l (map h l) = map (fun x => f x (h x)) l.
+Proof. induction l as [| x l IH]; cbn; [reflexivity | now rewrite IH]. Qed.
+
+Lemma make_products_map : forall data raw,
+  make_products data raw = map (fun r => mkProduct (raw_map data r) (r_corr r)) raw.
+Proof. intros. unfold make_products. rewrite bind_maps_id. apply map2_map_r. Qed.
+
+Lemma sub_length_lt : forall {A} a n (l : list A) c, c < List.length (sub a n l) -> c < n /\ a + c < List.length l.
+Proof.
+  intros A a n l c H. unfold sub in H. rewrite firstn_length, skipn_length in H. lia.
+Qed.
+
+Lemma nth_sub : forall {A} a n (l : list A) c d, c < n -> nth c (sub a n l) d = nth (a + c) l d.
+Proof. intros. unfold sub. rewrite nth_firstn' by assumption. apply nth_skipn'. Qed.
+
+Lemma distinct_sub : forall a n data, distinct data -> distinct (sub a n data).
+Proof.
+  intros a n data Hd j k Hj Hk E.
+  destruct (sub_length_lt _ _ _ _ Hj) as [Hjn Hja]. destruct (sub_length_lt _ _ _ _ Hk) as [Hkn Hka].
+  rewrite !nth_sub in E by assumption. specialize (Hd _ _ Hja Hka E). lia.
+Qed.
+
+Lemma corr_at_loaded : forall on_data t0 a n corr i t,
+  nth t (nth i (loaded_corr on_data t0 a n corr) []) []
+  = (if on_data then sub a n (nth (t0 + t) (nth i corr []) []) else nth (t0 + t) (nth i corr []) []).
+Proof.
+  intros. unfold loaded_corr.
+  set (h := fun g : list C => if on_data then sub a n g else g).
+  assert (Hh : h [] = []) by (unfold h, sub; destruct on_data; [now rewrite skipn_nil, firstn_nil | reflexivity]).
+  set (F := fun per_input : list (list C) => map h (skipn t0 per_input)).
+  assert (HF : F [] = []) by (unfold F; now rewrite skipn_nil).
+  rewrite <- HF at 1. rewrite map_nth. unfold F. rewrite <- Hh at 1. rewrite map_nth, nth_skipn'.
+  unfold h. reflexivity.
+Qed.
+
+(* gain-type product (or any product whose vectors do not live on the data channels): same vector, same own
+   channelisation, the loaded channel c is the stream's channel a + c *)
+Lemma subset_loaded_gain : forall data r r' own a n g c,
+  product_ok data r own -> product_ok (sub a n data) r' own -> (c < List.length (sub a n data))%nat ->
+  map_chan (raw_map (sub a n data) r') g c = map_chan (raw_map data r) g (a + c).
+Proof.
+  intros data r r' own a n g c Hok Hok' Hc. destruct (sub_length_lt _ _ _ _ Hc) as [Hn Ha].
+  rewrite (own_channelisation _ _ _ _ _ Hok' Hc), (own_channelisation _ _ _ _ _ Hok Ha).
+  now rewrite nth_sub.
+Qed.
+
+(* K/B product: its vectors live on the data channels, the loaded data set holds the loaded part of them *)
+Lemma subset_loaded_kb : forall data r r' a n g c,
+  r_kb r = true -> r_kb r' = true -> distinct data ->
+  corr_nchans (r_corr r) = List.length data -> corr_nchans (r_corr r') = List.length (sub a n data) ->
+  (c < List.length (sub a n data))%nat ->
+  map_chan (raw_map (sub a n data) r') (sub a n g) c = map_chan (raw_map data r) g (a + c).
+Proof.
+  intros data r r' a n g c Hkb Hkb' Hd Hcn Hcn' Hc. destruct (sub_length_lt _ _ _ _ Hc) as [Hn Ha].
+  assert (Hok : product_ok data r data) by (split; [assumption | right; left; auto]).
+  assert (Hok' : product_ok (sub a n data) r' (sub a n data))
+    by (split; [assumption | right; left; repeat split; auto using distinct_sub]).
+  rewrite (own_channelisation _ _ _ _ _ Hok' Hc), (own_channelisation _ _ _ _ _ Hok Ha).
+  rewrite nearest_self by auto using distinct_sub. rewrite nearest_self by assumption.
+  now apply nth_sub.
+Qed.
+
+(* the guard of the subset theorem, per product: how the correction vectors relate to the data channels *)
+Definition loaded_ok (data : list Q) (t0 a n : nat) (rb : rawproduct * bool) : Prop :=
+  let (r, on_data) := rb in
+  if on_data
+  then r_kb r = true /\ distinct data /\ corr_nchans (r_corr r) = List.length data
+       /\ corr_nchans (loaded_corr true t0 a n (r_corr r)) = List.length (sub a n data)
+  else exists own, product_ok data r own /\ product_ok (sub a n data) (loaded_raw false t0 a n r) own.
+
+Lemma subset_loaded : forall data (rs : list (rawproduct * bool)) t0 a n t c cp,
+  Forall (loaded_ok data t0 a n) rs -> (c < List.length (sub a n data))%nat ->
+  factor (make_products (sub a n data) (map (fun rb => loaded_raw (snd rb) t0 a n (fst rb)) rs)) t c cp
+  = factor (make_products data (map fst rs)) (t0 + t) (a + c) cp.
+Proof.
+  intros data rs t0 a n t c cp Hall Hc. rewrite !make_products_map, !map_map.
+  apply factor_pointwise. induction Hall as [| [r on_data] rs Hr Hrs IH]; cbn [map]; constructor; auto.
+  intro i. unfold gp, corr_at. cbn [p_map p_corr fst snd loaded_raw r_corr].
+  rewrite corr_at_loaded. cbn [loaded_ok] in Hr. destruct on_data.
+  - destruct Hr as (Hkb & Hd & Hcn & Hcn'). now apply subset_loaded_kb.
+  - destruct Hr as (own & Hok & Hok'). now apply (subset_loaded_gain _ _ _ own).
+Qed.
+
+(* ... and the guard fails for time-interpolated gains: a data set holding only dumps [a, b) sees other solutions
+   than the one holding all dumps [0, T) *)
+Lemma subset_loaded_refuted : exists (evs : list (Z * bool)) (T a b : Z),
+  (0 <= a < b)%Z /\ (b <= T)%Z /\ gain_has_valid 0 T evs = true /\ gain_has_valid a b evs = false.
+Proof. exists [(1, true); (2, false)]%Z, 6%Z, 3%Z, 6%Z. vm_compute. repeat split; discriminate. Qed.
+
+Lemma subset_loaded_refuted_later : exists (evs : list (Z * bool)) (T a b : Z),
+  (0 <= a < b)%Z /\ (b <= T)%Z /\ gain_has_valid 0 T evs = true /\ gain_has_valid a b evs = false.
+Proof. exists [(5, true)]%Z, 6%Z, 0%Z, 5%Z. vm_compute. repeat split; discriminate. Qed.
